@@ -43,11 +43,43 @@ def bumpver_toml(current_version, version_pattern, file_patterns, commit=False, 
     return "\n".join(lines) + "\n"
 
 
+def setup_cfg(current_version, version_pattern, file_patterns, commit=False, tag=False, push=False, extra=None, section="bumpver", quote=True):
+    """the same configuration in setup.cfg syntax (values quoted like `bumpver init` writes them)"""
+    q = (lambda s: '"%s"' % s) if quote else (lambda s: s)
+    lines = ["[%s]" % section, "current_version = %s" % q(current_version), "version_pattern = %s" % q(version_pattern)]
+    for k, v in (extra or {}).items():
+        lines.append("%s = %s" % (k, q(v) if isinstance(v, str) else ("True" if v else "False")))
+    lines += ["commit = %s" % ("True" if commit else "False"), "tag = %s" % ("True" if tag else "False"), "push = %s" % ("True" if push else "False"), "", "[%s:file_patterns]" % section]
+    for path, pats in file_patterns:
+        lines.append("%s =" % path)
+        lines += ["    " + p for p in pats]
+    return "\n".join(lines) + "\n"
+
+
+FOREIGN = {"setup.cfg": ["", "[metadata]\nname = demo\n\n", "[bumpversion]\ncurrent_version = 9.9.9\ncommit = True\n\n[bumpversion:file:setup.py]\n\n"],
+           "pyproject.toml": ["", "[build-system]\nrequires = [\"setuptools\"]\n\n[tool.black]\nline-length = 100\n\n", "[tool.bumpversion]\ncurrent_version = \"9.9.9\"\n\n"],
+           "bumpver.toml": ["", "", "# project configuration\n\n"]}
+
+
+def config_file(fmt, current_version, version_pattern, file_patterns, commit=False, tag=False, push=False, extra=None, variant=0):
+    """(file name, text) of one configuration in the format `fmt` (bumpver.toml / pyproject.toml / setup.cfg), preceded by what other tools may have
+    left in the file (variant picks among FOREIGN[fmt])"""
+    pre = FOREIGN[fmt][variant % len(FOREIGN[fmt])]
+    if fmt == "setup.cfg":
+        return fmt, pre + setup_cfg(current_version, version_pattern, file_patterns, commit, tag, push, extra)
+    return fmt, pre + bumpver_toml(current_version, version_pattern, file_patterns, commit, tag, push, extra, section="tool.bumpver" if fmt == "pyproject.toml" else "bumpver")
+
+
 class Project:
-    def __init__(self, root, vcs="git"):
+    def __init__(self, root, vcs="git", gitfile=False):
+        """vcs: which marker to create (the fake git/hg answers every query); gitfile: `.git` is a FILE pointing elsewhere, as in a linked
+        worktree, a submodule or a --separate-git-dir repository (only meaningful for git)"""
         self.root = root
         os.makedirs(root, exist_ok=True)
-        if vcs:
+        if vcs == "git" and gitfile:
+            with open(os.path.join(root, ".git"), "w") as f:
+                f.write("gitdir: /nonexistent/main/.git/worktrees/p\n")
+        elif vcs:
             os.makedirs(os.path.join(root, "." + vcs), exist_ok=True)
 
     def path(self, rel):
